@@ -401,6 +401,9 @@ Proof.
     match goal with |- bal (match ?x with _ => _ end) => destruct x end; [constructor|].
     apply bal_app; [|apply bal_leaf; exact I].
     apply bal_join. apply Forall_map_iff. ih.
+  - constructor.
+  - constructor.
+  - constructor.
 Qed.
 
 (* ---- every item is in the vocabulary with safe attributes and safe text ---- *)
@@ -557,6 +560,9 @@ Proof.
     match goal with |- all_ok (match ?x with _ => _ end) => destruct x end; [constructor|].
     apply ok_app; [|apply ok_one; reflexivity].
     apply ok_join. apply Forall_map_iff. use_ih H Hwf.
+  - constructor.
+  - constructor.
+  - constructor.
 Qed.
 
 (* ---- raw items come only from HtmlBlock / HtmlSpan tokens ---- *)
